@@ -1,4 +1,5 @@
 import Blue.Driver.Util
+import Blue.Driver.C12
 import Blue.Driver.C19
 import Blue.Driver.C10
 import Blue.Driver.C13
@@ -26,6 +27,7 @@ def dispatch (toks : List String) : String :=
   | "sst" :: rest => Blue.Driver.C10.handle ("sst" :: rest)
   | "bv" :: rest => Blue.Driver.C19.handleBv rest
   | "doc" :: rest => Blue.Driver.C19.handleDoc rest
+  | "log" :: rest => Blue.Driver.C12.handle rest
   | _ => "bad-op"
 
 partial def loop (h : IO.FS.Stream) (out : IO.FS.Stream) : IO Unit := do
